@@ -399,10 +399,11 @@ func encTags(w *W, st *strtab, tags []Tag) {
 type Mutator struct {
 	// Way/Relation/Dense message hooks receive the faithful message bytes of
 	// element index i of group gi and return what to emit instead.
-	StringIndex func(place string, idx uint64) uint64
-	DropDense   map[int]bool   // dense field numbers to drop (1 ids, 8 lat, 9 lon)
-	Truncate    map[string]int // column name -> number of trailing entries to drop
-	PlainNodes  bool           // emit group field 1 (plain Node) instead of dense
+	StringIndex     func(place string, idx uint64) uint64
+	DropDense       map[int]bool   // dense field numbers to drop (1 ids, 8 lat, 9 lon)
+	Truncate        map[string]int // column name -> number of trailing entries to drop
+	PlainNodes      bool           // emit group field 1 (plain Node) instead of dense
+	DropStringTable bool           // omit the (required) string table field
 }
 
 func (m *Mutator) sidx(place string, idx uint64) uint64 {
@@ -628,7 +629,9 @@ func (b *Block) EncodeWith(mu *Mutator) []byte {
 		stw.Bytes(1, []byte(s))
 	}
 	var pb W
-	pb.Bytes(1, stw.B)
+	if mu == nil || !mu.DropStringTable {
+		pb.Bytes(1, stw.B)
+	}
 	for _, g := range groups {
 		pb.Bytes(2, g)
 	}
